@@ -194,33 +194,55 @@ def fieldErr (es : List CfgErr) : List Err := if es.isEmpty then [] else [.join 
 
 end Validate
 
+namespace Validate
+
+def pnaAny (cfg : Config) : Bool := cfg.pna || cfg.pnaNoCors
+
+/-- The error (if any) of each step of `newInternalConfig`, in the order the code appends them. -/
+def statusErrs (cfg : Config) : List Err := match status cfg.status with
+  | .error e => [.leaf e]
+  | .ok _ => []
+def pnaErrs (cfg : Config) : List Err := if cfg.pna && cfg.pnaNoCors then [.leaf .pnaModes] else []
+def originsResult (ext : Ext) (cfg : Config) : List CfgErr × Tree :=
+  origins ext cfg.credentialed (pnaAny cfg) cfg.tolInsecure cfg.tolPSL cfg.origins
+/-- `validateOrigins` returns a bare leaf for the "missing" case and a join otherwise. -/
+def originErrs (ext : Ext) (cfg : Config) : List Err :=
+  if cfg.origins.isEmpty then (originsResult ext cfg).1.map .leaf else fieldErr (originsResult ext cfg).1
+def methodErrs (cfg : Config) : List Err := fieldErr (methods cfg.methods).1
+def reqHdrErrs (cfg : Config) : List Err := fieldErr (requestHeaders cfg.credentialed cfg.requestHeaders).1
+def maxAgeErrs (cfg : Config) : List Err := match maxAge cfg.maxAge with
+  | .error e => [.leaf e]
+  | .ok _ => []
+def resHdrErrs (cfg : Config) : List Err := fieldErr (responseHeaders cfg.credentialed cfg.responseHeaders).1
+
+/-- `errs` at the end of `newInternalConfig`. -/
+def allErrs (ext : Ext) (cfg : Config) : List Err :=
+  statusErrs cfg ++ pnaErrs cfg ++ originErrs ext cfg ++ methodErrs cfg ++ reqHdrErrs cfg ++ maxAgeErrs cfg ++ resHdrErrs cfg
+
+/-- The `internalConfig` built along the way (returned only when there is no error). -/
+def build (ext : Ext) (cfg : Config) : ICfg :=
+  let r := requestHeaders cfg.credentialed cfg.requestHeaders
+  { tree := (originsResult ext cfg).2,
+    allowedMethods := (methods cfg.methods).2.2,
+    allowedReqHdrs := r.2.2.2.1,
+    acah := r.2.2.2.2,
+    statusMinus200 := match status cfg.status with | .ok v => v | .error _ => 0,
+    credentialed := cfg.credentialed,
+    allowAnyMethod := (methods cfg.methods).2.1,
+    asteriskReqHdrs := r.2.1,
+    allowAuthorization := r.2.2.1,
+    pna := cfg.pna, pnaNoCors := cfg.pnaNoCors,
+    acma := match maxAge cfg.maxAge with | .ok v => v | .error _ => [],
+    aceh := (responseHeaders cfg.credentialed cfg.responseHeaders).2,
+    subsOfPublicSuffixes := cfg.tolPSL, insecureOrigins := cfg.tolInsecure }
+
+end Validate
+
 /-- `newInternalConfig` for a non-nil `*Config`: the error tree in exactly the shape
 `errors.Join` builds, or the internal configuration. -/
 def newInternalConfig (ext : Ext) (cfg : Config) : Except Err ICfg :=
-  let (e0, st) := match Validate.status cfg.status with
-    | .error e => ([ETree.leaf e], 0)
-    | .ok v => ([], v)
-  let e1 := if cfg.pna && cfg.pnaNoCors then [ETree.leaf .pnaModes] else []
-  let pnaAny := cfg.pna || cfg.pnaNoCors
-  let (oerrs, tree) := Validate.origins ext cfg.credentialed pnaAny cfg.tolInsecure cfg.tolPSL cfg.origins
-  -- validateOrigins returns a bare leaf for the "missing" case and a join otherwise
-  let e2 := if cfg.origins.isEmpty then oerrs.map ETree.leaf else Validate.fieldErr oerrs
-  let (merrs, anyM, mset) := Validate.methods cfg.methods
-  let e3 := Validate.fieldErr merrs
-  let (rerrs, ast, auth, rset, acah) := Validate.requestHeaders cfg.credentialed cfg.requestHeaders
-  let e4 := Validate.fieldErr rerrs
-  let (e5, acma) := match Validate.maxAge cfg.maxAge with
-    | .error e => ([ETree.leaf e], [])
-    | .ok v => ([], v)
-  let (xerrs, aceh) := Validate.responseHeaders cfg.credentialed cfg.responseHeaders
-  let e6 := Validate.fieldErr xerrs
-  let errs := e0 ++ e1 ++ e2 ++ e3 ++ e4 ++ e5 ++ e6
-  if !errs.isEmpty then .error (.join errs)
-  else .ok {
-    tree := tree, allowedMethods := mset, allowedReqHdrs := rset, acah := acah,
-    statusMinus200 := st, credentialed := cfg.credentialed, allowAnyMethod := anyM,
-    asteriskReqHdrs := ast, allowAuthorization := auth, pna := cfg.pna, pnaNoCors := cfg.pnaNoCors,
-    acma := acma, aceh := aceh, subsOfPublicSuffixes := cfg.tolPSL, insecureOrigins := cfg.tolInsecure }
+  if (Validate.allErrs ext cfg).isEmpty then .ok (Validate.build ext cfg)
+  else .error (.join (Validate.allErrs ext cfg))
 
 /-- `newConfig` for a non-nil `*internalConfig`. -/
 def newConfig (icfg : ICfg) : Config :=
